@@ -61,7 +61,7 @@ type caseHdr struct {
 
 func main() {
 	f := lib.ParseFlags()
-	res := lib.NewResult("ring: case has >= 1 Link/Unlink on rings of total size >= 2 or calls methods on zero-value/literal elements; buffered: case grows or shrinks the ring at least once or removes from empty; hist: >= 2 operations overlap in real time and >= 1 of them mutates")
+	res := lib.NewResult("ring: case has >= 1 Link/Unlink on rings of total size >= 2 or calls methods on zero-value/literal elements; buffered: case grows or shrinks the ring at least once or removes from empty; hist: >= 2 operations overlap in real time and >= 1 of them mutates; alias: a non-empty caller-owned buffer is passed with ...")
 	drv, err := lib.StartDrv(f.Drv, "C14")
 	if err != nil {
 		fmt.Fprintln(os.Stderr, "c14: cannot start model driver:", err)
@@ -93,6 +93,7 @@ func main() {
 	c.ringRandom(300 * mult)
 	c.histories(quick, mult)
 	c.forcedGetOrCreate()
+	c.aliasFamilies()
 	c.directedReadAll()
 	c.spinReadAll(150 * mult)
 	c.checkerControls()
@@ -123,6 +124,17 @@ func (c *ctx) replay(path string) {
 		var rc ringCase
 		_ = json.Unmarshal(rf.Case, &rc)
 		c.runRing(rc)
+	case "alias":
+		var ac aliasCase
+		_ = json.Unmarshal(rf.Case, &ac)
+		if ac.Scenario == "producers" {
+			c.aliasProducers()
+		} else if ac.Scenario == "keys-copy" {
+			c.keysIndependent()
+		} else {
+			c.runAlias(ac)
+		}
+		c.flushHist()
 	case "hist":
 		var hc histCase
 		_ = json.Unmarshal(rf.Case, &hc)
